@@ -19,7 +19,8 @@ EXPLANATION = (
     ' WIRE (buffer mode): the SOCKS5 UDP header and the internal address attribute are laid out identically by encoder and decoder.'
     ' UDP-LABEL: datagrams read from a listener-side session socket are labelled with the session target after the receive (Frame::recv_from labels with the source).'
     ' LENPFX: every length prefix the frame / SOCKS encoders write is a byte length (never a count of characters or items), and within one encoder a prefix is not paired with a variable-length field nobody measured.'
-    ' PORT: every address DnsConfig::lookup_host returns is SocketAddr::new(_, port) with the port it was called with.')
+    ' PORT: every address DnsConfig::lookup_host returns is SocketAddr::new(_, port) with the port it was called with.'
+    ' SPLIT: TargetAddress::from_str splits host:port once, at the last colon; V1 also understands the byte scan spelled as a loop with a found-flag (the loop body is interpreted for all 256 byte values).')
 RULE_TEXT = "instances = casts, validator clauses, tag tables, refusal edges, set_target call sites"
 TRUSTED = ["UDP payloads are <= 65507 bytes (u16 body length in the RPFM header)", "rustc type checking of integer widths"]
 NOT_DECIDED = ["round-trip equality for all strings", "from_utf8_lossy reinterpretation of non-UTF-8 hosts (recorded as finding candidate F17)"]
@@ -138,13 +139,64 @@ def validator_semantics(prog, g):
             pts.append((src[1].bb, None, None))
         else:
             pts.append((None, None, None))
+    tables = {}
+    # the same scan spelled as a loop with a found-flag:  `let mut clean = true; for b in host.bytes() { if bad(b) { clean = false; break } }; clean`
+    # -> a pseudo scan `any(bad)` whose predicate table is obtained by interpreting the loop body for each byte value, known to be
+    # false where the loop ends by exhaustion
+    from ..flow import discr_branch as db_
+    from ..bytepred import region_table
+
+    class _LoopScan:
+        path = "loop::any"
+
+        def __init__(self, call):
+            self.bb = call.bb
+            self.dest = [None]
+    for nx in [c for c in g.calls if re.search(r"iter::traits::iterator::Iterator::next$", c.path or "") and c.args and c.dest]:
+        ity = g.local_ty_s(op_base(c_ := nx.args[0])) if op_base(nx.args[0]) is not None else ""
+        if "str::iter::Bytes" not in ity and "slice::iter::Iter<'_, u8>" not in ity:
+            continue
+        if nx.bb not in g.reach_from(g.succ[nx.bb]):
+            continue
+        some_t = none_t = None
+        for (sb, targets, other) in db_(g, nx.dest[0]):
+            some_t = targets.get(1, other if 0 in targets else None)
+            none_t = targets.get(0, other if 1 in targets else None)
+        if some_t is None or none_t is None:
+            continue
+        body_ = g.reach_from([some_t], avoid=[nx.bb])
+        for fl in range(len(g.locals)):
+            ds = g.defs.get(fl, [])
+            if len(ds) < 2 or g.local_ty(fl)["k"] != "bool":
+                continue
+            vals = [(b, const_int(rv["a"]) if (i != "term" and rv["k"] == "use") else None) for (b, i, rv) in ds]
+            if any(v is None for b, v in vals):
+                continue
+            inits = [(b, v) for b, v in vals if g.dominates(b, nx.bb) and b not in body_]
+            inside = [(b, v) for b, v in vals if b in body_ and not g.dominates(b, nx.bb)]
+            if len(inits) != 1 or len(inits) + len(inside) != len(vals) or not inside or any(v == inits[0][1] for b, v in inside):
+                continue
+            # the flag is what the function returns after the loop
+            ret_uses = [b for (b, i, rv) in g.defs.get(0, []) if i != "term" and rv["k"] == "use" and op_base(rv["a"]) == fl and b in g.reach_from([none_t])]
+            if not ret_uses or inits[0][1] != 1:
+                continue
+            again = set([nx.bb]) | set(b for b in body_ if g.dominates(b, nx.bb))      # back at the loop head: next byte
+            clear = set(b for b, v in inside)
+            tb_ = region_table(prog, g, some_t, nx.dest[0], lambda v: {"d:Some": {"f:0": v}}, again | clear)
+            if tb_ is None:
+                continue
+            ps = _LoopScan(nx)
+            tables[id(ps)] = [tb_[v] in clear for v in range(256)]        # True = this byte clears the flag
+            scans.append(ps)
+            pts.append((none_t, ps, False))
     if not pts:
         return [("the validator is recognisable", False, "no accepting path for a host name was found")]
     lo_ok = hi_ok = by_ok = True
     lo_why = hi_why = by_why = ""
-    tables = {}
     for sc in scans:
         cl = None
+        if isinstance(sc, _LoopScan):
+            continue
         for n in et.walk(et.build(g, sc.args[1])):
             if n[0] == "closure":
                 cl = prog.fns.get(g.crate + "::" + n[1])
@@ -206,6 +258,8 @@ def validator_semantics(prog, g):
             val = None
             if sc is scan:
                 val = scan_val
+            elif isinstance(sc, _LoopScan):
+                val = None
             else:
                 for (sb, tt, ft) in bb_(g, sc.dest[0]):
                     if ed_(g, sb, tt, blk):
@@ -283,6 +337,38 @@ def rule_lookup_port(chk, prog, rule="PORT"):
                     "DnsConfig::lookup_host can return an address whose port is not the port it was called with (%d of %d successful returns are "
                     "not SocketAddr::new(_, port)): a host text such as `10.0.0.1:22` then decides the port the direct connector dials, while "
                     "the rules saw the port field of the request" % (len(bad), n))
+
+
+
+
+def rule_split_once(chk, prog, rule="SPLIT"):
+    """`host:port` text is split at its last colon, once: the host is everything in front of it.  In TargetAddress::from_str the
+    splitting primitive is rsplitn(2, ':') / rsplit_once(':') / rfind(':'); an iterator that keeps splitting (rsplit, split, a larger
+    n) silently drops the front of a host that contains a colon, so `2001:db8::1:443` is dialled as host `1`."""
+    fs = prog.find(r"<context::TargetAddress as core::str::traits::FromStr>::from_str$", "redproxy_rs")
+    if len(fs) != 1:
+        chk.anchor_missing(rule, "FromStr for TargetAddress")
+        return
+    g = fs[0]
+    sp = [c for c in [x for h in [g] + prog.children(g) for x in h.calls]
+          if re.search(r"^core::str::<impl str>::(rsplitn|splitn|rsplit|split|rsplit_once|split_once|rsplit_terminator|split_terminator|rfind|find|split_at)$", c.path or "")]
+    ok = len(sp) >= 1
+    why = ", ".join(short(c.path) for c in sp)
+    for c in sp:
+        m = re.search(r"::(\w+)$", c.path).group(1)
+        if m == "rsplitn":
+            n_ = g.int_of(c.args[1]) if len(c.args) > 1 else None
+            if n_ != 2:
+                ok = False
+                why = "rsplitn with n=%s" % n_
+        elif m not in ("rsplit_once", "rfind"):
+            ok = False
+            why = "%s splits at every / the first colon" % m
+    chk.instance(rule, "%s:%s" % (g.file, g.line), "TargetAddress::from_str splits host:port once, at the last colon", ok, why)
+    if not ok:
+        chk.finding(rule, g.key, "split", "", "%s:%s" % (g.file, g.line),
+                    "TargetAddress::from_str no longer takes everything in front of the last colon as the host (%s): a host text that contains "
+                    "a colon is re-split and the CONNECT request goes to a different destination instead of being kept whole or refused" % why)
 
 
 
@@ -518,6 +604,7 @@ def run(chk, prog):
     # a host name travels as length byte + bytes: the length written must be the byte length of what is written after it
     shared.rule_lenpfx(chk, prog, "LENPFX")
     rule_lookup_port(chk, prog)
+    rule_split_once(chk, prog)
 
     # ------------------------------------------------------------------ UDP-LABEL: datagrams of a listener-side session keep the session target
     from . import c10 as _c10
